@@ -89,6 +89,8 @@ def cells(tier: str) -> dict:
     add("chain[2,s2:a,narrow]", "chain", 2, {"a": ("s2", "e0s2")}, emax=H)
     add("chain[3,s2:a,narrow]", "chain", 3, {"a": ("s2", "e0s2")}, emax=H)
     add("limits[2,s2:b,narrow]", "limits", 2, {"b": ("s2", "e1s2")}, emax=3 * H, emin=2 * H)
+    # overrides of the same attribute on two tasks at different levels of the scenario tree: the innermost scenario inherits b's from s2
+    add("chain[3,s3:a+s2:b,narrow]", "chain", 3, {"a": ("s3", "e0s3"), "b": ("s2", "e1s2")}, emax=H)
     if tier != "quick":
         add("chain[4,s3:b]", "chain", 4, {"b": ("s3", "e1s3")})
         add("alap[3,s2:late]", "alap", 3, {"late": ("s2", "e1s2")}, emax=8 * H)
